@@ -45,6 +45,12 @@ def o_round(case):
     got = list(RTCMReader(io.BytesIO(want), labelmsm=lm, quitonerror=2))
     if len(got) != 1 or got[0][0] != want or got[0][1] is None or got[0][1].payload != p or pub(got[0][1]) != pub(m):
         raise Fail("reader-roundtrip", f"reader over the canonical frame gave {len(got)} results / different content (len {len(p)})")
+    # the same round trip with every option left at its default, after readers with other options have been built
+    # and used above: what the static parser returns depends on its own arguments only
+    md = RTCMMessage(payload=p)
+    m5 = RTCMReader.parse(md.serialize())
+    if m5.payload != p or m5.identity != md.identity or pub(m5) != pub(md):
+        raise Fail("parse-of-serialize-differs-with-default-options", f"len {len(p)} identity {md.identity} (a reader with labelmsm={lm} was used before)")
     # a message parsed with validation off from a frame with a stale trailer must still serialise canonically
     stale = want[:-3] + bytes(b ^ 0x5A for b in want[-3:])
     m4 = RTCMReader.parse(stale, validate=0, labelmsm=lm)
@@ -67,6 +73,8 @@ def o_round(case):
         cls.append("len>=256")
     if framing.frame_problem(p) is None:
         cls.append("payload-is-a-valid-frame")
+    if case.get("register"):
+        cls.append("crc-register-steered")
     if want[-2:] == b"\r\n":
         cls.append("crc-ends-in-crlf")
     if want[-3:] in (b"\0\0\0", b"\xff\xff\xff"):
@@ -76,7 +84,13 @@ def o_round(case):
 
 @st.composite
 def s_round(draw, tier):
-    k = draw(st.integers(0, 9))
+    k = draw(st.integers(0, 10))
+    if k == 10:
+        # the checksum register steered to a chosen value in the middle of the frame (all zero, one bit, top byte clear,
+        # all ones ...): per-byte or per-word shortcuts in a CRC routine have their boundary cases there
+        t = draw(st.sampled_from([0x010000, 0x010000, 0x000000, 0x00FFFF, 0x0000FF, 0xFF0000, 0xFFFFFF, 0x800000, 0x000001, 0x00FF00, 0x01FFFF]))
+        p = framing.payload_hitting_register(draw(gen.unknown_payloads("small")), draw(st.binary(max_size=9)), t, draw(st.integers(0, 255)))
+        return {"payload": p.hex(), "labelmsm": 1, "register": f"{t:06x}"}
     if k <= 4:
         c = draw(gen.any_message("mixed" if k < 2 else "small"))
         p = bytes.fromhex(c["payload"])
@@ -112,5 +126,5 @@ def _short(c):
 
 
 SUBS = [
-    Sub("roundtrip", o_round, strategy=s_round, examples=(250, 5000), rule="length >= 256 or defined identity", need={"crc-ends-in-crlf": 1, "crc-all-zero-or-ones": 1, "payload-is-a-valid-frame": 1, "len255": 1, "len256": 1, "len1023": 1, "defined": 1, "unknown": 1}, sample=_short),
+    Sub("roundtrip", o_round, strategy=s_round, examples=(250, 5000), rule="length >= 256 or defined identity", need={"crc-register-steered": 1, "crc-ends-in-crlf": 1, "crc-all-zero-or-ones": 1, "payload-is-a-valid-frame": 1, "len255": 1, "len256": 1, "len1023": 1, "defined": 1, "unknown": 1}, sample=_short),
 ]
